@@ -7,14 +7,33 @@ props = [json.loads(l) for l in open(os.path.join(V, 'properties.jsonl'))]
 TB = ('rustc front end + LLVM optimiser are inside the check (optimised IR is what is executed symbolically); trusted: LLVM back end, CPU, '
       'llsym instruction semantics (validated against native runs in setup), z3; harness built with panic=abort')
 
+L = 'symbolic execution of rustc-emitted optimised LLVM IR (llsym) + z3 equivalence queries against an independent reference; counterexamples replayed natively'
 CHECKS = {
- 'C14': dict(
-   technique='symbolic execution of rustc-emitted LLVM IR (llsym) + z3 equivalence queries against an RFC 7539 reference; counterexamples replayed natively',
-   text='Bounded solver-decided equivalence: for each double-round count 0..=10 and each build (std run-time dispatch with the CPU-feature word symbolic, no_simd, '
-        '5 no-std target-feature builds in thorough), refill4 / 4 x refill / refill are executed symbolically from the optimised IR with key, stream id and 64-bit counter '
-        'symbolic and proved equal to the reference block function at counters c..c+3 and final state c+4 (c+1); the overflow-checked build is explored for reachable panics.',
-   note=TB, design='§6-C14'),
+ 'C01': dict(technique=L, design='DESIGN.md 6-C01',
+   text='End to end through the RustCrypto API (new, try_seek(64B+o), try_apply_keystream(data[..L])) for the 7 cipher types: key, nonce, block number B (58/32 bits) and data symbolic, offset o and length L enumerated; every dispatcher arm (CPU-feature word symbolic) and the portable build. Solver-decided equality with the RFC 7539 / HChaCha reference, and "nothing else changes" via exact-bounds memory objects.'),
+ 'C02': dict(technique='inductive step from an arbitrary invariant state: symbolic execution of the optimised IR of try_apply_keystream / try_seek / try_current_pos / new with the keystream cores summarised (assume-guarantee with C14), z3 for the obligations', design='DESIGN.md 6-C02',
+   text='One inductive step instead of histories: from ANY buffered state satisfying a stated representation invariant (counter, len, fresh, buffer, key, stream id symbolic; buffer fill -63..63 and request length 0..70/330 enumerated) every operation XORs the keystream bytes of the absolute position, moves the position exactly and re-establishes the invariant, in the release and the overflow-checked IR; seek over every SeekNum type with the position symbolic over the whole type.'),
+ 'C04': dict(technique=L, design='DESIGN.md 6-C04',
+   text='Full digests of the four variants with a symbolic message for the length classes the property names (all dispatcher arms + portable build), and one step update+finalize from an ARBITRARY chaining value / bit counter / buffer fill (hook), against a reference written from the BLAKE document; overflow-checked build explored for reachable panics.'),
+ 'C05': dict(technique=L, design='DESIGN.md 6-C05',
+   text='Skein-256/512/1024 digests with real Threefish inside for symbolic messages over the length classes and a finite set of output sizes (incl. several output blocks, non-multiples of 8), plus one UBI continuation step from an arbitrary (chaining value, byte counter) state.'),
+ 'C09': dict(technique=L, design='DESIGN.md 6-C09',
+   text='Threefish-256/512/1024 encryption with key, tweak and block fully symbolic proved equal (canonical identity / z3) to a reference typed from the Skein 1.3 tables, for the unrolled, no_unroll and overflow-checked builds.'),
+ 'C10': dict(technique=L, design='DESIGN.md 6-C10',
+   text='decrypt(encrypt(b)) and encrypt(decrypt(b)) executed back to back on the real code with key, tweak and block symbolic: both reduce to b (linear normal form, rotate cancellation; residues to z3), three sizes, three builds.'),
+ 'C11': dict(technique='same inductive-step entries as C02 with the counter symbolic across every boundary, plus end-of-stream scenarios on the real cores; z3 decides the iff-characterisation of exhaustion', design='DESIGN.md 6-C11',
+   text='IETF: from any invariant state apply(n) is Ok iff P+n <= 2^38, a failed apply is atomic (data, position, invariant intact), try_seek is Ok iff p <= 2^38 and an error otherwise for every SeekNum type; 64-bit types never report exhaustion (counter < 2^58); nonce words never change (finds the known carry defect).'),
+ 'C12': dict(technique=L, design='DESIGN.md 6-C12',
+   text='Complete (backend x vector type x operation) grid required by the Machine trait bounds: each operation of each of the six backends executed symbolically on 512-bit symbolic operands and proved equal to its scalar meaning; panicking operations are violations.'),
+ 'C13': dict(technique=L, design='DESIGN.md 6-C12',
+   text='Same grid for data movement: insert/extract at every index, to_lanes/from_lanes, to_scalars, transpose4, LE/BE byte loads and stores, storage round trips, on every backend.'),
+ 'C14': dict(technique=L, design='DESIGN.md 6-C14',
+   text='For each double-round count 0..=10 and each build (std run-time dispatch with the CPU-feature word symbolic, no_simd, 5 no-std target-feature builds in thorough), refill4 / 4 x refill / refill are executed symbolically from the optimised IR with key, stream id and 64-bit counter symbolic and proved equal to the reference block function at counters c..c+3 and final state c+4 (c+1); the overflow-checked build is explored for reachable panics.'),
+ 'C15': dict(technique=L, design='DESIGN.md 6-C15',
+   text='set/get_stream_param round trip, isolation and equality with a directly constructed state (following block at 0/1/10 double rounds), and the boolean iff-characterisation of stream32_eq / stream64_eq, all values symbolic, 4 builds.'),
 }
+for v in CHECKS.values():
+    v.setdefault('note', TB)
 NA_DEFAULT = 'check not built yet (work in progress; see DESIGN.md)'
 NA = {}
 
